@@ -313,10 +313,11 @@ def main():
         'compact': args.compact,
     }
 
+    exitcode = 0
     if args.FILE:
         for file in args.FILE:
             with open(file, encoding=args.encoding) as f:
-                exitcode = process(
+                exitcode |= process(
                     f,
                     model,
                     sys.stdout,
